@@ -229,3 +229,10 @@ Definition from_props (props : list (pstr * aval)) : res pstate :=
                 c_description := prop_or n_description props3 (AV VNone) |}
       else Raise ETypeError                                   (* unexpected keyword argument *)
   end.
+
+(* ------------------------------------------------------------------ *)
+(* 4. Policy._data: what to_json writes - the attribute dictionary with every tuple turned into a list
+      (done in place, not through __setattr__: nothing else changes) *)
+Definition flat (a : aval) : aval :=
+  match a with ASeq _ es => ASeq false es | AV (VTup l) => AV (VList l) | _ => a end.
+Definition data_of (s : pstate) : pstate := map (fun kv => (fst kv, flat (snd kv))) s.
